@@ -111,7 +111,12 @@ def min_sum(sum):
     sum = _as_double(sum)
 
     def result(structure, index=None, value=None):
-        return np.nansum(structure.values()) >= sum
+        values = np.asarray(structure.values())
+        if values.dtype.kind == 'f':
+            # in double precision, whatever the precision of the data (while
+            # the dendrogram is being computed the values are Python floats)
+            values = values.astype(float)
+        return np.nansum(values) >= sum
     return result
 
 
